@@ -76,10 +76,10 @@ theorem refName_total (taken : List String) (x : String) :
   simp only [refName, hf, if_true, hr]
 
 theorem exportModelC_doc {m : PyModel} {cs : List (String × Rat)} {dc : SDocC}
-    (h : exportModelC m cs = .ok dc) : exportModel m = .ok dc.doc ∧ dc.compartments = cs ∧
+    (h : exportModelC m cs = .ok dc) : exportModelFrom (refTaken m cs) m = .ok dc.doc ∧ dc.compartments = cs ∧
       ∃ comp, speciesCompartment cs m.vars = .ok comp ∧ dc.species = speciesAttrs comp dc.doc.species := by
   unfold exportModelC at h
-  unfold exportModel
+  unfold exportModelFrom
   cases h1 : foldE exportParam SDoc.empty m.params with
   | error e => simp [h1, bind, Except.bind] at h
   | ok d1 =>
@@ -96,7 +96,7 @@ theorem exportModelC_doc {m : PyModel} {cs : List (String × Rat)} {dc : SDocC}
         | error e => simp [h4] at h
         | ok d3 =>
           simp only [h4] at h ⊢
-          cases h5 : foldE exportReaction (m.names, d3) m.rxns with
+          cases h5 : foldE exportReaction (refTaken m cs, d3) m.rxns with
           | error e => simp [h5] at h
           | ok r =>
             obtain ⟨tk, d4⟩ := r
@@ -164,5 +164,15 @@ theorem writeModel_ok {m : PyModel} {o : Option (List (String × Rat))} {dc : SD
   cases hc : chooseCompartments m.names o with
   | error e => simp [hc, bind, Except.bind] at h
   | ok cs => simp only [hc, bind, Except.bind] at h; exact ⟨cs, rfl, h⟩
+
+
+theorem exportModel_eq_from (m : PyModel) : exportModel m = exportModelFrom m.names m := rfl
+
+theorem names_sub_refTaken (m : PyModel) (cs : List (String × Rat)) : ∀ n ∈ m.names, n ∈ refTaken m cs := by
+  intro n hn
+  unfold refTaken
+  split
+  · exact List.mem_append_left _ hn
+  · exact hn
 
 end Mxl.C08
